@@ -358,8 +358,45 @@ fn gen_lookahead_case(d: &mut Dec, thorough: bool, min_pats: usize) -> Case {
         modes: vec![mode],
         ..Case::default()
     };
+    if d.chance(40) {
+        // a sibling mode in front: the same patterns and token types, other lookaheads; the scan
+        // runs in the second mode (entered with set_mode) - compiled data shared between modes
+        // must not carry lookaheads over
+        let mut sib = case.modes[0].clone();
+        sib.name = "SIBLING".into();
+        match d.below(3) {
+            0 => sib.pats.iter_mut().for_each(|q| q.la = None),
+            1 => {
+                for q in sib.pats.iter_mut() {
+                    if q.la.is_none() {
+                        q.la = Some(LaSpec {
+                            positive: d.bool(),
+                            rx: gen::gen_lookahead_rx(d, &p),
+                        });
+                    } else {
+                        q.la = None;
+                    }
+                }
+            }
+            _ => sib.pats.iter_mut().for_each(|q| {
+                if let Some(la) = q.la.as_mut() {
+                    la.positive = !la.positive;
+                }
+            }),
+        }
+        case.modes.insert(0, sib);
+        case.ops = vec![Op::SetMode { m: 1 }];
+    }
+    let scan_mode = case.modes.len() - 1;
     let model = case.model();
-    let input = gen::gen_input(d, &model, p.max_input_chars);
+    let input = {
+        // words of the mode that is scanned
+        let sub = Model {
+            preds: model.preds.clone(),
+            modes: vec![model.modes[scan_mode].clone()],
+        };
+        gen::gen_input(d, &sub, p.max_input_chars)
+    };
     // start offset: 0 in half of the cases, else a random character boundary
     if d.bool() {
         let text = Text::new(&input);
@@ -383,6 +420,9 @@ fn scan_from_offset(
     let input = case.input();
     guard(|| {
         let mut it = scanner.find_iter(input);
+        if let Some(Op::SetMode { m }) = case.ops.first() {
+            it.set_mode(*m);
+        }
         match (case.start_offset, case.offset_after) {
             (None, _) => {}
             (Some(o), None) => it = it.with_offset(o),
@@ -407,7 +447,24 @@ fn scan_from_offset(
 }
 
 fn lookahead_shape_ok(case: &Case) -> bool {
-    case.modes.len() == 1 && case.inputs.len() == 1 && !case.add_patterns
+    let ops_ok = match case.ops.as_slice() {
+        [] => case.modes.len() == 1,
+        [Op::SetMode { m }] => *m < case.modes.len() && *m == case.modes.len() - 1,
+        _ => false,
+    };
+    (1..=2).contains(&case.modes.len())
+        && ops_ok
+        && case.inputs.len() == 1
+        && !case.add_patterns
+        && case.modes.iter().all(|m| m.transitions.is_empty())
+}
+
+/// the mode the lookahead cases scan in
+fn scan_mode_of(case: &Case) -> usize {
+    match case.ops.first() {
+        Some(Op::SetMode { m }) => *m,
+        _ => 0,
+    }
 }
 
 fn start_char(case: &Case, text: &Text) -> Option<usize> {
@@ -469,8 +526,10 @@ fn check_lookahead(case: &Case, strict_choice: bool) -> CheckResult {
     if !lookahead_shape_ok(case) {
         return Ok(discard("discard_shape"));
     }
+    let sm = scan_mode_of(case);
     if strict_choice
-        && (case.modes[0].pats.len() < 2 || case.modes[0].pats.iter().all(|p| p.la.is_none()))
+        && (case.modes[sm].pats.len() < 2
+            || case.modes.iter().all(|m| m.pats.iter().all(|p| p.la.is_none())))
     {
         return Ok(discard("discard_shape"));
     }
@@ -499,8 +558,9 @@ fn check_lookahead(case: &Case, strict_choice: bool) -> CheckResult {
         }
     };
     st.flag("nonzero_start_offset", start > 0);
-    st.flag("more_than_64_patterns", case.modes[0].pats.len() > 64);
+    st.flag("more_than_64_patterns", case.modes[sm].pats.len() > 64);
     st.flag("input_longer_than_4096_bytes", case.input().len() > 4096);
+    st.flag("scanned_in_a_sibling_mode", case.modes.len() == 2);
     st.flag("offset_by_set_offset", case.offset_after.is_some() && case.start_offset.is_some());
     if start > 0 {
         st.nontrivial = !strict_choice;
@@ -512,7 +572,7 @@ fn check_lookahead(case: &Case, strict_choice: bool) -> CheckResult {
         // next position with a non-empty candidate set
         let mut found = None;
         while pos < n {
-            let (cands, info) = model.candidates(0, &text.chars, pos);
+            let (cands, info) = model.candidates(sm, &text.chars, pos);
             note_position(&mut st, &cands, &info, strict_choice);
             if !cands.is_empty() {
                 found = Some(cands);
@@ -859,7 +919,13 @@ impl Check for C07 {
                     m: d.below(case.modes.len()),
                 },
                 3 => Op::SetOffset { o: gen_off(d) },
-                4 => Op::WithOffset { o: gen_off(d) },
+                4 => {
+                    if d.bool() {
+                        Op::WithOffset { o: gen_off(d) }
+                    } else {
+                        Op::RebaseWithOffset { o: gen_off(d) }
+                    }
+                }
                 _ => {
                     let n = 1 + d.below(3);
                     Op::PeekAdvance { n, k: d.below(n) }
@@ -888,7 +954,7 @@ impl Check for C07 {
             match op {
                 Op::Next | Op::PeekN { .. } => {}
                 Op::SetMode { m } if *m < case.modes.len() => {}
-                Op::SetOffset { o } | Op::WithOffset { o }
+                Op::SetOffset { o } | Op::WithOffset { o } | Op::RebaseWithOffset { o }
                     if *o > case.input().len() || case.input().is_char_boundary(*o) => {}
                 Op::PeekAdvance { n, k } if k < n => {}
                 _ => return Ok(discard("discard_op")),
@@ -1008,9 +1074,11 @@ impl Check for C07 {
                         }
                     }
                     Op::SetMode { m } => it.set_mode(*m),
-                    Op::SetOffset { o } | Op::WithOffset { o } => {
+                    Op::SetOffset { o } | Op::WithOffset { o } | Op::RebaseWithOffset { o } => {
                         if matches!(op, Op::WithOffset { .. }) {
                             it = scanner.find_iter(input).with_offset(*o);
+                        } else if matches!(op, Op::RebaseWithOffset { .. }) {
+                            it = it.with_offset(*o);
                         } else {
                             it.set_offset(*o);
                         }
